@@ -75,6 +75,9 @@ PLAIN = [
     # extra positional values of comment() belong to the comment as well
     ("comment-values", lambda g: g.comment("Position X:", 10.5, "Y:", 20)),
     ("comment-values-linebreak", lambda g: g.comment("note", "first\nG1 X99", 7)),
+    # raw statements that still carry their own line break / blanks (start-up snippets forwarded line by line from a file)
+    ("write-raw-lf", lambda g: g.write("G90\n")), ("write-raw-crlf", lambda g: g.write("G21 \r\n")), ("write-raw-cr", lambda g: g.write("M400\r")),
+    ("write-raw-tabs", lambda g: g.write("G4 P1 \t \n\n")),
     ("move-comment-empty", lambda g: g.move(x=1.5, comment="")),
     ("auto_home-comment-empty", lambda g: g.auto_home(comment="")),
     ("set_axis-comment-empty", lambda g: g.set_axis(x=0, comment="")),
@@ -173,7 +176,7 @@ def check_value(cfg, name, letter, domain, call, v, finite=True, pre=None):
     problems = []
     exc, raw = run_one(cfg, call, v, pre=pre)
     dp = cfg["decimal_places"]
-    label = cfg.get("x_axis", "X").upper() if letter == "X" else letter
+    label = cfg.get("x_axis", "X").strip().upper() if letter == "X" else letter
     typed_np = isinstance(v, np.generic) and not isinstance(v, (float, int))
     if not finite:
         if exc is None:
@@ -305,6 +308,8 @@ def configs(tier):
         for e in endings[1:]:
             out.append({"decimal_places": 3, "comment_symbols": ";", "line_endings": e})
         out.append({"decimal_places": 5, "comment_symbols": "(", "line_endings": "\\r\\n", "x_axis": "A"})
+    # an axis label given with surrounding blanks (the setter trims it)
+    out.append({"decimal_places": 4, "comment_symbols": ";", "line_endings": "os", "x_axis": " u "})
     return out
 
 
